@@ -38,6 +38,9 @@ _BUILTIN_FUNC = {
 }
 
 
+_UNSET = object()
+
+
 class Folder:
     def __init__(self, src: SourceModel):
         self.src = src
@@ -57,7 +60,14 @@ class Folder:
             if r is None:
                 raise AnalysisError(f"constant {module}.{name} is not bound at module level")
             if r[0] == "value":
-                v = self.fold(r[1], r[2])
+                hist = getattr(self.src.modules.get(r[1]), "history", {}).get(r[3] if len(r) > 3 else name, [])
+                if len(hist) > 1 and hist[-1] is r[2]:
+                    # X = <literal>; X = g(X): each assignment sees the value of the one before it
+                    v = _UNSET
+                    for node in hist:
+                        v = self.fold(r[1], node, {} if v is _UNSET else {(r[3] if len(r) > 3 else name): v})
+                else:
+                    v = self.fold(r[1], r[2])
             elif r[0] == "external":
                 if r[1] in _EXTERNAL_CONST:
                     v = _EXTERNAL_CONST[r[1]]
